@@ -23,8 +23,9 @@ def emit(pid, title, imports, items, examples=""):
     cache = {}
     lines = ["(** %s. %s" % (pid, title),
              "    This file only pins statements: every theorem restates a lemma of proofs/ verbatim and is closed by it. *)",
-             "From CacheD Require Import Base Sketch Model%s." % (" Ack" if "AckProofs" in imports else ""),
-             "From CacheD.proofs Require Import %s." % " ".join(["Closing"] + [i for i in imports if i not in ("Closing",)]) if "AckProofs" not in imports
+             ("From CacheD Require Import Base Locks.\nLocal Open Scope nat_scope." if "LocksProofs" in imports else
+              "From CacheD Require Import Base Sketch Model%s." % (" Ack" if "AckProofs" in imports else "")),
+             "From CacheD.proofs Require Import %s." % " ".join(["Closing"] + [i for i in imports if i not in ("Closing",)]) if ("AckProofs" not in imports and "LocksProofs" not in imports)
              else "From CacheD.proofs Require Import %s." % " ".join(imports), ""]
     for mod, lemma, suffix in items:
         if mod not in cache:
@@ -36,7 +37,7 @@ def emit(pid, title, imports, items, examples=""):
         if comment:
             lines.append("(** %s *)" % comment)
         lines.append("Theorem %s :\n  %s." % (name, stmt))
-        if "AckProofs" in imports:
+        if "AckProofs" in imports or "LocksProofs" in imports:
             lines.append("Proof. exact %s. Qed." % lemma)
         else:
             lines.append("Proof. close_with %s. Qed." % lemma)
@@ -128,6 +129,13 @@ spec("C17", "Valid calls never panic or kill a background worker", ["InvProofs",
     ("PanicProofs", "C17_refuted_remove_ttl_small_weight", "known_finding_remove_ttl_small_weight"),
     ("PanicProofs", "C17_refuted_ttl_overflow", "known_finding_ttl_overflow"),
     ("SketchProofs", "counters_1_no_panic", "one_counter_sketch_no_panic"),
+])
+
+L = "LocksProofs"
+spec("C18", "No deadlock: every call returns under every interleaving", [L], [
+    (L, "ordered_locking_progress", None), (L, "lwf_step", None), (L, "lwf_run", None), (L, "lstep_disabled_noop", None),
+    (L, "cached_lock_programs_ordered", None), (L, "cached_sys_wf", None), (L, "cached_no_deadlock", None),
+    (L, "reentrant_get_ref_excluded", None),
 ])
 
 if __name__ == "__main__":
